@@ -285,7 +285,7 @@ func (r *Runner) resolveCallExpression(ctx context.Context, expr *CallExpression
 		}
 	}
 	funType := reflect.TypeOf(fun)
-	if funType.Kind() != reflect.Func {
+	if funType == nil || funType.Kind() != reflect.Func || reflect.ValueOf(fun).IsNil() {
 		return nil, fmt.Errorf("expr %s value not is function", name)
 	}
 	hasVariadic := hasVariadicParameter(funType)
